@@ -76,6 +76,16 @@ func doReplay(path string) {
 		fmt.Println(err)
 		os.Exit(2)
 	}
+	if fn, ok := replays[rp.Part]; ok {
+		var m map[string]any
+		json.Unmarshal(b, &m)
+		bad, obs := fn(m)
+		fmt.Println(obs)
+		if bad {
+			os.Exit(1)
+		}
+		os.Exit(0)
+	}
 	find, ok := finders[rp.Part]
 	if !ok {
 		fmt.Println("no scenario finder for part", rp.Part)
